@@ -24,6 +24,8 @@ mod render;
 mod state;
 mod util;
 mod vardct;
+#[cfg(jxl_oxide_verif)]
+pub use vardct::verif_h3;
 
 pub use error::{Error, Result};
 pub use features::render_spot_color;
